@@ -407,6 +407,8 @@ _R = "phyclone/run.py"
 _SB = "phyclone/smc/samplers/base.py"
 _CONC = "phyclone/mcmc/concentration.py"
 SELFTEST = [
+    {"name": "T2-outlier-prior-guard-on-the-other-term", "kind": "break", "rule": ["T2", "T3"], "file": "phyclone/tree/distributions.py", "old": "                if data_point.outlier_prob != 0:\n                    if node == outlier_node_name:", "new": "                if data_point.outlier_prob_not != 0:\n                    if node == outlier_node_name:"},
+    {"name": "M4-to_dict-shares-index-map", "kind": "break", "rule": "M4", "file": "phyclone/tree/tree.py", "old": "\"node_idx\": self._node_indices.copy(),", "new": "\"node_idx\": self._node_indices,"},
     {"name": "T5-revert-F12", "kind": "break", "rule": "T5", "file": _CONC, "old": "        new_value = max(new_value, 1e-10)  # Catch numerical error\n", "new": "            new_value = max(new_value, 1e-10)  # Catch numerical error\n"},
     {"name": "T5-floor-is-zero", "kind": "break", "rule": "T5", "file": _CONC, "old": "new_value = max(new_value, 1e-10)", "new": "new_value = max(new_value, 0.0)"},
     {"name": "T5-floor-dropped", "kind": "break", "rule": "T5", "file": _CONC, "old": "        new_value = max(new_value, 1e-10)  # Catch numerical error\n", "new": ""},
